@@ -177,10 +177,14 @@ def reduce_event(c, idx=0):
                 S = abtem.SMatrix(potential=pot, energy=ENERGY, semiangle_cutoff=cut0, interpolation=f, downsample=ds)
             if hist != "fresh":
                 _ = (len(S), S.shape, np.asarray(S.wave_vectors).shape, S.ensemble_axes_metadata)       # inspect, then edit
-                if hist == "edited_cutoff":
-                    S.semiangle_cutoff = cut
-                else:
-                    S.potential = pot
+                try:
+                    if hist == "edited_cutoff":
+                        S.semiangle_cutoff = cut
+                    else:
+                        S.potential = pot
+                except AttributeError:               # the edit is not offered by this version of the API: use a fresh object instead
+                    return abtem.SMatrix(potential=pot, energy=ENERGY, semiangle_cutoff=cut, interpolation=f, downsample=ds) if pot is not None else \
+                        abtem.SMatrix(extent=extent, gpts=gpts, energy=ENERGY, semiangle_cutoff=cut, interpolation=f, downsample=ds)
             return S
 
         def reduced(lazy, dets=None):
